@@ -369,6 +369,7 @@ struct Member {
   Token *name;
   int idx;
   int align;
+  int explicit_align; // value of _Alignas, or 0
   int offset;
 
   // Bitfield
